@@ -20,7 +20,7 @@ pub struct C14;
 const IDLE: u16 = 0x8000; // JR $
 const HANDLER: u16 = 0xBDBD; // EI; RET
 
-pub const DIRT: [&str; 8] = ["fresh", "halted", "mid_prefix", "ei_pending", "paging_locked", "border_im_iff", "ran_program", "ay_programmed"];
+pub const DIRT: [&str; 9] = ["fresh", "halted", "mid_prefix", "ei_pending", "paging_locked", "border_im_iff", "ran_program", "ay_programmed", "stopped_mid_frame"];
 
 /// A state whose program idles (so that continuation is well defined) but whose registers, RAM,
 /// paging, border and AY contents are arbitrary.
@@ -108,6 +108,16 @@ pub fn dirty_receiver(e: &mut Emu, kind: usize, rng: &mut Rng, m128: bool) {
             write_mem(e, 0x8800, &[0x3E, 0x05, 0xD3, 0xFE, 0x76]);
             st.to_impl(e.verif_cpu());
             let _ = run_frames(e, 2);
+        }
+        8 => {
+            // the host stopped the machine in the middle of a frame (breakpoint) before loading
+            write_mem(e, 0x8800, &[0x18, 0xFE]);
+            st.to_impl(e.verif_cpu());
+            let _ = run_frames(e, 1);
+            set_break_mode(e, BreakMode::EveryNth(300 + rng.below(5000)));
+            e.set_speed(rustzx_core::EmulationMode::FrameCount(1));
+            let _ = e.emulate_frames(LONG);
+            set_break_mode(e, BreakMode::Never);
         }
         7 => {
             for r in 0..14u8 {
@@ -237,7 +247,7 @@ impl Property for C14 {
         }
     }
     fn rule(&self) -> &'static str {
-        "kind 0: a seeded state (all registers, IFFs, IM, paging incl. lock, border, every RAM page, AY registers) encoded as SNA or SZX (chunk order permuted, pages stored or zlib-compressed, unknown chunks, optional AY/KEYB/AMXM/CRTR chunks) and loaded through a chunking asset into a dirty receiver (halted, mid prefix chain, EI pending, paging locked on another bank, other border/IM/IFF, after a program ran, AY programmed) and into a fresh one: field-by-field comparison, display vs RefScreen, identical continuation of both receivers, AY read-back and PCM vs a twin programmed through the ports, joystick/mouse presence; kind 1: SZX HALTED / EILAST flags; kind 2: the same state as SNA, stored SZX and compressed SZX must continue identically; kind 3: model mismatch matrix; kind 4: SCR. distinct = (kind, format, encoding options, machine pair, receiver dirt kind, flags)"
+        "kind 0: a seeded state (all registers, IFFs, IM, paging incl. lock, border, every RAM page, AY registers) encoded as SNA or SZX (chunk order permuted, pages stored or zlib-compressed, unknown chunks, optional AY/KEYB/AMXM/CRTR chunks) and loaded through a chunking asset into a dirty receiver (halted, mid prefix chain, EI pending, paging locked on another bank, other border/IM/IFF, after a program ran, AY programmed, stopped by a breakpoint in the middle of a frame) and into a fresh one: field-by-field comparison, display vs RefScreen, identical continuation of both receivers, AY read-back and PCM vs a twin programmed through the ports, joystick/mouse presence; kind 1: SZX HALTED / EILAST flags; kind 2: the same state as SNA, stored SZX and compressed SZX must continue identically; kind 3: model mismatch matrix; kind 4: SCR. distinct = (kind, format, encoding options, machine pair, receiver dirt kind, flags)"
     }
     fn state_measure(&self) -> &'static str {
         "distinct (format, machine, receiver dirt kind, paged bank, lock) combinations compared"
@@ -273,7 +283,7 @@ impl Property for C14 {
         sc.set("m128", rng.bool() as i64);
         sc.set("fmt", rng.range(0, 1));
         sc.set("seed", (rng.next() >> 8) as i64);
-        sc.set("dirt", rng.range(0, 7));
+        sc.set("dirt", rng.range(0, 8));
         sc.set("chunk", *rng.pick(&[0i64, 0, 1, 13, 1000, 16384]));
         sc.set("oseed", (rng.next() >> 8) as i64);
         sc.set("conv", rng.range(0, 1));
@@ -285,7 +295,7 @@ impl Property for C14 {
         let m128 = sc.get("m128") != 0;
         let fmt = sc.get("fmt").clamp(0, 1) as usize;
         let kind = sc.get("kind");
-        let dirt = sc.get("dirt").clamp(0, 7) as usize;
+        let dirt = sc.get("dirt").clamp(0, 8) as usize;
         let chunk = sc.get("chunk").max(0) as usize;
         let mut rng = Rng::new(sc.get("seed") as u64);
         let mut orng = Rng::new(sc.get("oseed") as u64);
@@ -300,6 +310,7 @@ impl Property for C14 {
             with_keyb: r.bool(),
             with_mouse: r.bool(),
             fe_low: if r.bool() { Some(r.u8() & 7) } else { None },
+            fe_hi: 0,
         };
         let encode = |s: &SnapState, fmt: usize, opt: &SzxOptions| -> Vec<u8> {
             if fmt == 0 {
